@@ -647,10 +647,9 @@ func switchArms(fn *ssa.Function) map[int64]*ssa.Return {
 	return out
 }
 
-func checkAlgorithmTables(c *Ctx, r *Report) {
-	r.Rule("algorithm-tables", "authentication algorithm → (hash constructor, ICV truncation) and integrity algorithm → (hash constructor, truncation) tables equal IPMI v2.0 tables 13-17/13-18; truncatedHash.Sum returns len(b)+length bytes; K_n hashes 20 copies of byte n", 8)
-	// authentication algorithms
-	var authFn, integFn, ciphFn *ssa.Function
+// algorithmCtors finds the three constructors by the type of their first
+// parameter (authentication, integrity, confidentiality algorithm).
+func (c *Ctx) algorithmCtors() (authFn, integFn, ciphFn *ssa.Function) {
 	aa := c.Named("pkg/ipmi", "AuthenticationAlgorithm")
 	ia := c.Named("pkg/ipmi", "IntegrityAlgorithm")
 	ca := c.Named("pkg/ipmi", "ConfidentialityAlgorithm")
@@ -671,6 +670,87 @@ func checkAlgorithmTables(c *Ctx, r *Report) {
 			ciphFn = fn
 		}
 	}
+	return
+}
+
+// authPairs lists, over every feasible path of the authentication parameter
+// constructor that returns a usable object, the (hash constructor, ICV length)
+// it holds. ok=false if some pair could not be read.
+func (c *Ctx) authPairs() (pairs [][2]string, ok bool) {
+	authFn, _, _ := c.algorithmCtors()
+	if authFn == nil {
+		return nil, false
+	}
+	hashField, lenField := authParamFields(authFn)
+	ok = true
+	seen := map[[2]string]bool{}
+	complete := enumPaths(authFn, 1, 8192, func(p CPath) {
+		ret, isRet := p.Last().(*ssa.Return)
+		if !isRet || ret.Parent() != authFn {
+			return
+		}
+		r0 := p.Resolve(ret.Results[0])
+		if isNilConst(r0) || !isNilConst(p.Resolve(ret.Results[1])) {
+			return
+		}
+		f := p.objFields(p.objOf(r0))
+		pr := [2]string{"?", "0"}
+		if fnv, isF := stripConv(f[hashField]).(*ssa.Function); isF {
+			pr[0] = fnv.String()
+		} else {
+			ok = false
+		}
+		if v, has := f[lenField]; has {
+			if n, isN := constInt(v); isN {
+				pr[1] = fmt.Sprint(n)
+			} else {
+				ok = false
+			}
+		}
+		if !seen[pr] {
+			seen[pr] = true
+			pairs = append(pairs, pr)
+		}
+	})
+	return pairs, ok && complete && len(pairs) > 0
+}
+
+// authParamFields: the names of the two fields of the authentication
+// parameter object the constructor returns — the hash constructor (the field
+// of type func() hash.Hash) and the ICV length (the integer field) — found by
+// type so that renaming them changes nothing.
+func authParamFields(authFn *ssa.Function) (hashField, lenField string) {
+	hashField, lenField = "hashGen", "icvLength"
+	pt, ok := authFn.Signature.Results().At(0).Type().(*types.Pointer)
+	if !ok {
+		return
+	}
+	st, ok := pt.Elem().Underlying().(*types.Struct)
+	if !ok {
+		return
+	}
+	var hs, ls []string
+	for i := 0; i < st.NumFields(); i++ {
+		f := st.Field(i)
+		if types.TypeString(f.Type(), nil) == "func() hash.Hash" {
+			hs = append(hs, f.Name())
+		}
+		if b, ok := f.Type().Underlying().(*types.Basic); ok && b.Info()&types.IsInteger != 0 {
+			ls = append(ls, f.Name())
+		}
+	}
+	if len(hs) == 1 {
+		hashField = hs[0]
+	}
+	if len(ls) == 1 {
+		lenField = ls[0]
+	}
+	return
+}
+
+func checkAlgorithmTables(c *Ctx, r *Report) {
+	r.Rule("algorithm-tables", "authentication algorithm → (hash constructor, ICV truncation) and integrity algorithm → (hash constructor, truncation) tables equal IPMI v2.0 tables 13-17/13-18; truncatedHash.Sum returns len(b)+length bytes; K_n hashes 20 copies of byte n", 8)
+	authFn, integFn, ciphFn := c.algorithmCtors()
 	if authFn == nil || integFn == nil || ciphFn == nil {
 		r.Lost("algorithm constructor functions (by parameter type)")
 		return
@@ -678,6 +758,7 @@ func checkAlgorithmTables(c *Ctx, r *Report) {
 	r.Fn(c.FnName(authFn))
 	r.Fn(c.FnName(integFn))
 	r.Fn(c.FnName(ciphFn))
+	hashField, lenField := authParamFields(authFn)
 	// The three tables are read per feasible path of the flattened view: which constant the
 	// algorithm parameter compared equal with on the path, and what the returned object's
 	// fields hold at the return — literal, field assignments and helper constructors alike.
@@ -702,12 +783,12 @@ func checkAlgorithmTables(c *Ctx, r *Report) {
 		}
 		got := [2]string{"?", "0"}
 		f := p.objFields(p.objOf(r0))
-		if v, ok := f["hashGen"]; ok {
+		if v, ok := f[hashField]; ok {
 			if fnv, ok := stripConv(v).(*ssa.Function); ok {
 				got[0] = fnv.String()
 			}
 		}
-		if v, ok := f["icvLength"]; ok {
+		if v, ok := f[lenField]; ok {
 			if n, isN := constInt(v); isN {
 				got[1] = fmt.Sprint(n)
 			} else {
@@ -743,7 +824,7 @@ func checkAlgorithmTables(c *Ctx, r *Report) {
 				r.Fn(c.FnName(mf))
 				allInstrs(mf, false, func(in ssa.Instruction) {
 					if call, ok := in.(*ssa.Call); ok && calleeName(&call.Call) == "crypto/hmac.New" {
-						if ld, ok := call.Call.Args[0].(*ssa.UnOp); ok && apOf(ld.X).SelString() == "hashGen" && viewVal(mf, call.Call.Args[1]) == ssa.Value(mf.Params[1]) {
+						if ld, ok := call.Call.Args[0].(*ssa.UnOp); ok && apOf(ld.X).SelString() == hashField && viewVal(mf, call.Call.Args[1]) == ssa.Value(mf.Params[1]) {
 							okm = true
 						}
 					}
@@ -787,7 +868,7 @@ func checkAlgorithmTables(c *Ctx, r *Report) {
 				zero, decided := false, false
 				for _, rel := range p.relations() {
 					for _, pr := range [][2]ssa.Value{{rel.X, rel.Y}, {rel.Y, rel.X}} {
-						if !p.loadOfField(pr[0], icv.Params[0], "icvLength") {
+						if !p.loadOfField(pr[0], icv.Params[0], lenField) {
 							continue
 						}
 						if k, isC := constInt(p.Resolve(pr[1])); isC && k == 0 {
@@ -811,7 +892,7 @@ func checkAlgorithmTables(c *Ctx, r *Report) {
 				default:
 					f := p.objFields(p.objOf(rv))
 					ln, hasLen := f["length"]
-					if !isK(p, f["Hash"]) || !hasLen || !p.loadOfField(ln, icv.Params[0], "icvLength") {
+					if !isK(p, f["Hash"]) || !hasLen || !p.loadOfField(ln, icv.Params[0], lenField) {
 						okICV, whyICV = false, "with a non-zero ICV length the result is not the SIK-keyed HMAC truncated to that length"
 					}
 				}
